@@ -84,3 +84,59 @@ package parser
 //@        ==> (result1 == nil && result0 == old(p.peek2Token.Type) && p.curToken == old(p.peek3Token) && p.peekToken == old(p.peek4Token))
 //@   ensures [C15:mod-error] (old(p.peekToken.Type) == token.LPAREN && !((old(p.peek2Token.Type) == token.GLOBAL || old(p.peek2Token.Type) == token.LOCAL) && old(p.peek3Token.Type) == token.RPAREN)) ==> result1 != nil
 //@ end
+
+// ---- format() (C07, C17, C18) ----
+
+//@ func (fc *FontConfig) getWordPixelWidth
+//@   trusted
+//@   pure
+//@   ensures [C07:wordw] result == WordW(fc, word, fontID)
+//@ end
+
+//@ func (fc *FontConfig) getNextWord
+//@   ensures [C07,C18:tok-range] 0 <= result0 && result0 <= slen(text)
+//@   ensures [C07,C18:tok-progress] slen(result1) > 0 ==> result0 > 0
+//@   ensures [C07:tok-sub] result1 == "" || (exists s int, e int :: 0 <= s && s <= e && e <= slen(text) && e <= result0 && result1 == substr(text, s, e))
+//@   loop 1
+//@     invariant [C07,C18:tok-inv] 0 <= startPos && startPos <= $pos && 0 <= endPos && endPos <= $pos && $pos <= slen(text)
+//@     invariant [C07,C18:tok-inv] escape ==> startPos <= endPos
+//@     invariant [C07,C18:tok-inv] (foundNonSpace ==> startPos < $pos) && (foundRegularRune ==> foundNonSpace) && (endOnNext ==> foundNonSpace) && (escape ==> foundNonSpace)
+//@ end
+
+//@ pred ReserveOverlap(next string, curLineNum int, numLines int) = slen(next) > 0 && (curLineNum >= numLines - 1 || next == "\\p" || next == "\\l")
+
+//@ func (fc *FontConfig) FormatText
+//@   requires [C07:overlap-nonneg] cursorOverlapWidth >= 0
+//@   ensures [C07:width] result1 == nil ==> (forall t int :: {piecesOf(result0)[3*t]} (0 <= t && 3*t + 1 < len(piecesOf(result0))) ==>
+//@        LineFits(fc, fontID, SpaceWOf(fc, fontID), piecesOf(result0)[3*t], piecesOf(result0)[3*t + 1], maxWidth, cursorOverlapWidth))
+//@   ensures [C07:width-last] (result1 == nil && gorem(len(piecesOf(result0)), 3) == 1) ==>
+//@        LineFits(fc, fontID, SpaceWOf(fc, fontID), piecesOf(result0)[len(piecesOf(result0)) - 1], "", maxWidth, cursorOverlapWidth)
+//@   loop 1
+//@     invariant [C17:font-ids] i == $n && len(validFontIDs) == len(fc.Fonts) && (forall a int :: {validFontIDs[a]} (0 <= a && a < i) ==> has($visited, validFontIDs[a]))
+//@   loop 2
+//@     use PWBase(fc, fontID, spaceCharWidth, curLineSb.pieces)
+//@     use PWStep(fc, fontID, spaceCharWidth, curLineSb.pieces, len(curLineSb.pieces) - 1)
+//@     use PWStep(fc, fontID, spaceCharWidth, curLineSb.pieces, len(curLineSb.pieces) - 2)
+//@     use PWStable(fc, fontID, spaceCharWidth, curLineSb.pieces, prev(curLineSb.pieces), len(prev(curLineSb.pieces)))
+//@     invariant [C07,C18:fmt-pos] 0 <= pos && pos <= slen(text) && curLineNum >= 0 && spaceCharWidth == SpaceWOf(fc, fontID)
+//@     invariant [C07:acct] curWidth == PW(fc, fontID, spaceCharWidth, curLineSb.pieces, len(curLineSb.pieces)) && len(curLineSb.pieces) >= 0
+//@     invariant [C07:acct] (len(curLineSb.pieces) == 0 || gorem(len(curLineSb.pieces), 2) == 1) && isFirstWord == (len(curLineSb.pieces) == 0)
+//@     invariant [C07:acct] curLineSb.nbytes >= 0 && (curLineSb.nbytes > 0) == (len(curLineSb.pieces) > 0) && len(curLineSb.markers) == 0
+//@     invariant [C07:lastcheck] len(curLineSb.pieces) >= 3 ==> curWidth + (ReserveOverlap(word, curLineNum, numLines) ? cursorOverlapWidth : 0) <= maxWidth
+//@     invariant [C07:shape] gorem(len(formattedSb.pieces), 3) == 0 && len(formattedSb.pieces) >= 0 && len(formattedSb.markers) == 0
+//@     invariant [C07:width-inv] forall t int :: {formattedSb.pieces[3*t]} (0 <= t && 3*t + 2 < len(formattedSb.pieces)) ==>
+//@        LineFits(fc, fontID, spaceCharWidth, formattedSb.pieces[3*t], formattedSb.pieces[3*t + 1], maxWidth, cursorOverlapWidth)
+//@     transition [C07:discipline] (len(formattedSb.pieces) == prev(len(formattedSb.pieces)) + 3 && (prev(word) == "\\N" || !IsBreakWord(prev(word))))
+//@        ==> formattedSb.pieces[prev(len(formattedSb.pieces)) + 1] == (prev(curLineNum) >= numLines - 1 ? "\\l" : "\\n")
+//@     transition [C07:explicit-kept] (IsBreakWord(prev(word)) && prev(word) != "\\N") ==> (len(formattedSb.pieces) == prev(len(formattedSb.pieces)) + 3 && formattedSb.pieces[prev(len(formattedSb.pieces)) + 1] == prev(word))
+//@     transition [C07:lineno] (len(formattedSb.pieces) == prev(len(formattedSb.pieces)) + 3) ==> curLineNum == (formattedSb.pieces[prev(len(formattedSb.pieces)) + 1] == "\\p" ? 0 : prev(curLineNum) + 1)
+//@     transition [C07:lineno-same] (len(formattedSb.pieces) == prev(len(formattedSb.pieces))) ==> curLineNum == prev(curLineNum)
+//@     transition [C07:flush-line] (len(formattedSb.pieces) == prev(len(formattedSb.pieces)) + 3) ==> (piecesOf(formattedSb.pieces[prev(len(formattedSb.pieces))]) == prev(curLineSb.pieces) && formattedSb.pieces[prev(len(formattedSb.pieces)) + 2] == "\n")
+//@     transition [C07:minimal] (len(formattedSb.pieces) == prev(len(formattedSb.pieces)) + 3 && !IsBreakWord(prev(word))) ==> (len(prev(curLineSb.pieces)) > 0
+//@        && prev(curWidth) + WordW(fc, prev(word), fontID) + spaceCharWidth + (ReserveOverlap(word, prev(curLineNum), numLines) ? cursorOverlapWidth : 0) > maxWidth)
+//@     transition [C07:word-kept] !IsBreakWord(prev(word)) ==> (len(curLineSb.pieces) >= 1 && curLineSb.pieces[len(curLineSb.pieces) - 1] == prev(word))
+//@     transition [C07:word-appended] (!IsBreakWord(prev(word)) && len(formattedSb.pieces) == prev(len(formattedSb.pieces))) ==>
+//@        (len(curLineSb.pieces) == len(prev(curLineSb.pieces)) + (len(prev(curLineSb.pieces)) == 0 ? 1 : 2)
+//@         && (forall k int :: {curLineSb.pieces[k]} (0 <= k && k < len(prev(curLineSb.pieces))) ==> curLineSb.pieces[k] == prev(curLineSb.pieces)[k]))
+//@     decreases slen(text) - pos, (slen(word) > 0 ? 1 : 0)
+//@ end
